@@ -57,6 +57,19 @@ fn perm(n: usize) -> Vec<usize> {
     match model::mode() {
         Mode::Sequential => (0..n).collect(),
         Mode::Reversed => (0..n).rev().collect(),
+        Mode::Explore if n > 4 => {
+            // stages with more than 4 closures: four representative orders instead of n! (stated bound)
+            match symrt::choice(4) {
+                0 => (0..n).collect(),
+                1 => (0..n).rev().collect(),
+                2 => (1..n).chain(0..1).collect(),
+                _ => {
+                    let mut v: Vec<usize> = (0..n).collect();
+                    v.swap(0, 1);
+                    v
+                }
+            }
+        }
         Mode::Explore => {
             let mut rest: Vec<usize> = (0..n).collect();
             let mut out = Vec::with_capacity(n);
